@@ -38,10 +38,13 @@ def make_operand(ip, s, pfx, kind, mv_kind=None):
       t = ip.call(_cls(ip, QI, "QuantizedBits"), [], {})
       lat = S.fixed_lattice(bits, integer, signed)
     else:
+      signed = z3.IntVal(0)
       q = ip.call(_cls(ip, QZ, "quantized_relu"), [SNum(bits), SNum(integer)], {})
       t = ip.call(_cls(ip, QI, "QuantizedRelu"), [], {})
       lat = S.fixed_lattice(bits, integer, 0)
     ip.call(ip.getattr(t, "convert_qkeras_quantizer"), [q], {})
+    V[pfx + "_lo"] = lat.lo
+    V[pfx + "_hi"] = lat.hi
     return t, lat
   if kind in ("po2", "relu_po2"):
     bits = z3.Int(pfx + "_bits")
@@ -74,6 +77,9 @@ def make_operand(ip, s, pfx, kind, mv_kind=None):
       s.info.setdefault("mvexps", []).append(c)
     s.hints.extend([eff])
     lat = S.Po2(emin, emax, z3.BoolVal(bool(sg)))
+    V[pfx + "_emin"] = emin
+    V[pfx + "_emax"] = emax
+    V[pfx + "_nsb"] = bits - sg
     return t, lat
   if kind == "ternary":
     q = ip.call(_cls(ip, QZ, "ternary"), [], {})
